@@ -29,6 +29,20 @@ def run(ctx):
         if '"CompoundParser"' in l and '"ok":0' in l and len(ctx.samples) < 2: ctx.samples.append(json.loads(l))
     ctx.tlc_traces("Trace_C04", traces)
     ctx.traces = nh
+    # 2b. a fault at a particular point: every allocation request of 23 scenarios refused in turn (plain and sanitized objects), judged by XrlHeap!FaultWhy;
+    #     the design the stage holds the crystal code to is model-checked first (reserve-then-hand-over is atomic, copy-one-by-one is not)
+    ctx.tlc_must_pass("MC_C04f", workers=2)
+    rbad = ctx.tlc("MC_C04f", cfg="MC_C04f_copyeach", workers=2)
+    if "Invariant Atomic is violated" not in rbad["out"]: raise Broken("MC_C04f_copyeach: the non-atomic discipline was expected to violate Atomic (vacuity guard)")
+    ftraces = []; nfault = 0
+    for tag, exe in (("plain", ctx.harness(ctx.build("plain", "A"))), ("asan", exeA)):
+        out = os.path.join(ctx.scratch, "fault.%s.ndjson" % tag)
+        e = san_env("f" + tag); e["ASAN_OPTIONS"] += ":detect_leaks=0"
+        rr = ctx.run_harness(exe, ["c04f"], out, env=e, timeout=1200)
+        if rr.returncode != 0: extra.append({"prop": "C04", "why": "fault driver ended abnormally", "rc": rr.returncode, "stderr": (rr.stderr or "")[-800:]})
+        ftraces.append(out); nfault += sum(1 for _ in open(out))
+    ctx.tlc_traces("Trace_C04f", ftraces)
+    for f in glob.glob(os.path.join(ctx.scratch, "asan-fasan*")) + glob.glob(os.path.join(ctx.scratch, "asan-fplain*")): os.remove(f)      # reports of children that died are judged as "died" events, not twice
     # 3. the exhaustive discrete enumeration of C03 on the sanitized objects, both data configurations
     bB = ctx.build("asan", "B"); exeB = ctx.harness(bB)
     def enum(job):
@@ -59,8 +73,8 @@ def run(ctx):
     ctx.evaluations = calls + nev
     return verdict(ctx, "exploration", {
         "distinct_nontrivial": nh,
-        "rule": "ledger: %d seeded histories (length <= %d) over parser, add_compound_data, NIST/radionuclide lookups, name lists, symbols, crystal copies, user crystal arrays incl. well-formed and corrupted files, compound functions and refractive indices (with and without error slot), all released at the end; every step validated by TLC against XrlHeap (delta of live blocks = footprint, running total = ledger, no open FILE, 0 at the end). memory errors: the same histories and the complete C03 argument enumeration (%d calls, data configurations A and B) executed on gcc ASan+UBSan+LSan objects; every report is a violation keyed by its top library frame. The crystal-collection histories of C14 also run on the sanitized objects. distinct_nontrivial = histories." % (nh, maxlen, calls),
-        "ledger_model_states": mc[0], "ledger_model_transitions": mc[1], "enumeration_calls": calls, "history_events": nev,
+        "rule": "ledger: %d seeded histories (length <= %d) over parser, add_compound_data, NIST/radionuclide lookups, name lists, symbols, crystal copies, user crystal arrays incl. well-formed and corrupted files, compound functions and refractive indices (with and without error slot), all released at the end; every step validated by TLC against XrlHeap (delta of live blocks = footprint, running total = ledger, no open FILE, 0 at the end). memory errors: the same histories and the complete C03 argument enumeration (%d calls, data configurations A and B) executed on gcc ASan+UBSan+LSan objects; every report is a violation keyed by its top library frame. The crystal-collection histories of C14 also run on the sanitized objects. fault stage: 23 scenarios (constructors, lists, parser, crystal copies, additions to user arrays with room / at capacity / without storage and to the built-in collection, file loads, compound functions, the error path itself), each repeated with the k-th allocation request refused for every k (%d events on plain and sanitized objects), judged by XrlHeap!FaultWhy: the call returns, reports XRL_ERROR_MEMORY with a message, holds nothing, leaves the collection as it was and usable. distinct_nontrivial = histories." % (nh, maxlen, calls, nfault),
+        "fault_events": nfault, "ledger_model_states": mc[0], "ledger_model_transitions": mc[1], "enumeration_calls": calls, "history_events": nev,
     }, ["heap blocks are counted by link-time interposition of malloc/calloc/realloc/free/strdup/strndup/vasprintf/fopen/fclose in library objects",
         "out-of-bounds / use-after-free / UB inside a call is decided by ASan+UBSan as an observation instrument, not by the specification",
-        "allocation failure (malloc returning NULL) is not driven"], extra_violations=extra)
+        "allocation failure is driven one request at a time in 23 fixed scenarios, not inside random histories; functions whose unchecked allocations make the process die are listed as known findings per function"], extra_violations=extra)
